@@ -63,6 +63,10 @@ func (g *Gen) Base() {
 	g.trade(3)
 	g.next(13 * 3600)
 	g.trade(3)
+	g.interest()
+	g.next(6)
+	g.next(3*86400 + 7) // chain-halt sized gap: more than two epoch durations between consecutive blocks
+	g.interest()
 	g.next(6)
 	// whale vault: its draw-down fee pushes the collector's net fees over the surplus threshold
 	g.msg("vault.create", vaulttypes.NewMsgCreateRequest(U("u5"), AppHarbor, 1, i(9_000_000_000), i(2_500_000_000)))
@@ -183,6 +187,8 @@ func (g *Gen) trade(pair uint64) {
 		g.msg("liquidity.cancel", liquiditytypes.NewMsgCancelOrder(AppSwap, U("u1"), pair, oid))
 	}
 	if pair == 1 {
+		g.dustBook()
+		g.faulty()
 		// cancel-all naming several pairs (the event lists the pair ids); u2 and u6 leave resting orders every round
 		u := []string{"u2", "u6"}[g.R.Intn(2)]
 		g.msg("liquidity.cancelall.multi", liquiditytypes.NewMsgCancelAllOrders(AppSwap, U(u), []uint64{1, 2, 3}))
@@ -269,6 +275,7 @@ func (g *Gen) swapOpen() {
 	g.msg("liquidity.createpool", liquiditytypes.NewMsgCreatePool(AppSwap, U("u2"), 2, sdk.NewCoins(coin("ucmdx", 2_000_000_000), coin("uasset3", 2_000_000_000))))
 	g.msg("liquidity.createpair", liquiditytypes.NewMsgCreatePair(AppSwap, U("u3"), "uasset2", "ucmdx"))
 	g.msg("liquidity.createpool", liquiditytypes.NewMsgCreatePool(AppSwap, U("u3"), 3, sdk.NewCoins(coin("uasset2", 1_500_000_000), coin("ucmdx", 3_000_000_000))))
+	g.msg("liquidity.createpair", liquiditytypes.NewMsgCreatePair(AppSwap, U("u5"), "uasset4", "uasset3")) // pair 4: no pool, order book only
 	// a second pool on the pair whose quote coin IS the swap-fee distribution denom: every swap-fee epoch shares the
 	// accumulated fees between the two pools by liquidity (x/liquidity/keeper/pool.go, map of pool liquidities)
 	g.msg("liquidity.createranged", liquiditytypes.NewMsgCreateRangedPool(AppSwap, U("u4"), 3, sdk.NewCoins(coin("uasset2", 400_000_000), coin("ucmdx", 800_000_000)), d("1.8"), d("2.2"), d("2.0")))
@@ -290,4 +297,78 @@ func (g *Gen) swapOpen() {
 
 func liqV2Internal(from sdk.AccAddress, id uint64) sdk.Msg {
 	return liqv2types.NewMsgLiquidateInternalKeeperRequest(from, 0, id)
+}
+
+// dustBook places, on the pool-less pair 4, a group of same-price same-batch sell orders of very different size (two
+// big ones, a tiny one whose pro-rata share truncates to zero, sometimes a fourth) and one buy that fills the tick only
+// partially and not in proportion: the matching engine re-distributes and hands a remainder unit out by priority.
+// The orders live for this batch only.
+func (g *Gen) dustBook() {
+	price := d("1.0")
+	fee := func(c sdk.Coin) sdk.Coin {
+		return c.AddAmount(sdk.NewDecFromInt(c.Amount).Mul(d("0.003")).Ceil().TruncateInt())
+	}
+	sell := func(u string, amt int64) {
+		g.msg("liquidity.limit.dust", liquiditytypes.NewMsgLimitOrder(AppSwap, U(u), 4, liquiditytypes.OrderDirectionSell, fee(coin("uasset4", amt)), "uasset3", price, i(amt), 0))
+	}
+	a, b := 60_000_000+g.R.Int63n(3)*1_000_000, 40_000_000+g.R.Int63n(3)*1_000_000
+	sell("u3", a)
+	sell("u4", b)
+	sell("u5", 1_000+g.R.Int63n(50))
+	if g.R.Intn(2) == 0 {
+		sell("u1", 100+g.R.Int63n(40))
+	}
+	buy := 50_001 + g.R.Int63n(40)*2
+	g.msg("liquidity.limit.dust", liquiditytypes.NewMsgLimitOrder(AppSwap, U("u6"), 4, liquiditytypes.OrderDirectionBuy,
+		fee(sdk.NewCoin("uasset3", amm.OfferCoinAmount(amm.Buy, price, i(buy)))), "uasset4", price, i(buy), 0))
+}
+
+// faulty sends messages that must be REJECTED and that are wrong in several ways at once (which fault is reported, and
+// how much work is done before it is found, is part of the transaction result).
+func (g *Gen) faulty() {
+	m := rewardstypes.NewMsgCreateGauge(AppSwap, U("u2"), g.C.Time.Add(time.Hour), rewardstypes.LiquidityGaugeTypeID, 12*time.Hour, coin("weth", 5000), 2)
+	m.Kind = &rewardstypes.MsgCreateGauge_LiquidityMetaData{LiquidityMetaData: &rewardstypes.LiquidtyGaugeMetaData{PoolId: 1, IsMasterPool: true,
+		ChildPoolIds: []uint64{2, 1, 97, 3, 98}}} // a valid child, the master itself, two unknown pools
+	g.msg("faulty.gauge", m)
+	g.msg("faulty.cancelall", liquiditytypes.NewMsgCancelAllOrders(AppSwap, U("u3"), []uint64{1, 91, 2, 92, 93}))
+	g.msg("faulty.vault", vaulttypes.NewMsgCreateRequest(U("u1"), 7, 9, i(1), i(1_000_000_000_000_000)))
+	g.msg("faulty.lend", lendtypes.NewMsgBorrow(U("u6").String(), 99, 77, true, coin("ucasset9", 1), coin("uasset9", 1)))
+}
+
+// Controls exercises the emergency controls: the circuit breaker of the lend app is tripped, the harbor app is shut
+// down by ESM (deposit, execute, cool-off, redemption); guarded messages are attempted; long block gaps follow.
+func (g *Gen) Controls() {
+	admin := g.C.App.EsmKeeper.AdminParam(g.ctx())[0]
+	g.CtlFrom = g.cur
+	g.msg("esm.killswitch", &esmtypes.MsgKillRequest{From: admin, KillSwitchParams: &esmtypes.KillSwitchParams{AppId: AppLend, BreakerEnable: true}})
+	g.msg("guarded.lend", lendtypes.NewMsgLend(U("u6").String(), A2, coin("uasset2", 77_000_000), 1, AppLend))
+	g.next(6)
+	g.msg("esm.deposit", esmtypes.NewMsgDeposit(U("u6").String(), AppHarbor, coin("uharbor", 300_000_000_000)))
+	g.msg("esm.deposit", esmtypes.NewMsgDeposit(U("u5").String(), AppHarbor, coin("uharbor", 300_000_000_000)))
+	g.next(6)
+	g.msg("esm.execute", esmtypes.NewMsgExecute(U("u6").String(), AppHarbor))
+	g.msg("guarded.vault", vaulttypes.NewMsgCreateRequest(U("u6"), AppHarbor, 2, i(40_000_000), i(5_000_000)))
+	g.msg("guarded.locker", lockertypes.NewMsgCreateLockerRequest(U("u6").String(), i(2_000_000), A3, AppHarbor))
+	g.next(6)
+	g.next(1800) // inside the cool-off period
+	g.next(4000) // cool-off over
+	g.msg("esm.redeem", esmtypes.NewMsgCollateralRedemption(AppHarbor, coin("uasset3", 1_000_000), U("u2")))
+	g.msg("esm.killswitch", &esmtypes.MsgKillRequest{From: admin, KillSwitchParams: &esmtypes.KillSwitchParams{AppId: AppLend, BreakerEnable: false}})
+	g.next(6)
+	g.next(3*86400 + 11) // a gap of more than two epochs / any auction or cool-off duration
+	g.trade(1)
+	g.next(6)
+}
+
+// interest makes the fractional trackers move: stability-fee calculation on every vault, saving-rate calculation on
+// every locker, lend interest.
+func (g *Gen) interest() {
+	ctx := g.ctx()
+	for _, v := range g.C.App.VaultKeeper.GetVaults(ctx) {
+		g.msg("vault.interest", vaulttypes.NewMsgVaultInterestCalcRequest(U("u6"), v.AppId, v.Id))
+	}
+	for _, l := range g.C.App.LockerKeeper.GetLockers(ctx) {
+		g.msg("locker.rewardcalc", lockertypes.NewMsgLockerRewardCalcRequest(U("u6").String(), l.AppId, l.LockerId))
+	}
+	g.msg("lend.calc", lendtypes.NewMsgCalculateInterestAndRewards(U("u2").String()))
 }
